@@ -837,6 +837,8 @@ class CompositeEnvelope:
             CompositeEnvelope._instances[self.uid] = []
         CompositeEnvelope._instances[self.uid].append(self)
         self.update_composite_envelope_pointers()
+        # Merging containers moves product states to new positions
+        ce_container.update_all_indices()
 
     def __repr__(self) -> str:
         return (
